@@ -52,6 +52,8 @@ class TapeRecorder(object):
         self._random = Random(random_seed)
         self._force_sample = False
         self._thread_locals = threading.local()
+        # Guards taking the active recording for finalization or discard, so exactly one of them gets it
+        self._recording_state_lock = threading.Lock()
 
     @contextmanager
     def start_recording(self, category, metadata, post_operation_metadata_extractor=None):
@@ -79,16 +81,18 @@ class TapeRecorder(object):
             metadata[TapeRecorder.EXCEPTION_IN_OPERATION] = True
             raise
         finally:
-            # Recording was discarded
-            if self._active_recording is not None:
+            # Take the active recording and clear the recording state in one step (not to leave recording in active
+            # state if we have some exception raised in following code), a discard that is done at the same time by
+            # an interception that is still running on another thread either happens before or finds nothing to discard
+            with self._recording_state_lock:
                 recording = self._active_recording
                 force_sample = self.is_recording_sample_forced
                 recording_parameters = self._active_recording_parameters
+                if recording is not None:
+                    self._reset_active_recording()
 
-                # Clear recording not to leave recording in active state if we have
-                # some exception raised in following code
-                self._reset_active_recording()
-
+            # Otherwise recording was discarded
+            if recording is not None:
                 if not self._should_sample_active_recording(recording, recording_parameters, force_sample):
                     self.tape_cassette.abort_recording(recording)
                 else:
@@ -108,22 +112,28 @@ class TapeRecorder(object):
         """
         Discards currently active recording process
         """
-        if self._active_recording is not None:
+        with self._recording_state_lock:
+            recording = self._active_recording
+            if recording is not None:
+                self._reset_active_recording()
+
+        if recording is not None:
             _logger.info(
-                u'Recording with id {} was discarded'.format(self._active_recording.id))
-            self.tape_cassette.abort_recording(self._active_recording)
-            self._reset_active_recording()
+                u'Recording with id {} was discarded'.format(recording.id))
+            self.tape_cassette.abort_recording(recording)
 
     def force_sample_recording(self):
         """
         Make sure currently active recording will be sampled (unless explicitly discarded or set to ignore enforcement)
         """
-        if self._active_recording is not None:
-            if self._active_recording_parameters.ignore_enforced_sampling:
+        with self._recording_state_lock:
+            recording = self._active_recording
+            if recording is None or self._active_recording_parameters.ignore_enforced_sampling:
                 return
-            _logger.info(
-                u'Recording with id {} sampling is enforced'.format(self._active_recording.id))
             self._force_sample = True
+
+        _logger.info(
+            u'Recording with id {} sampling is enforced'.format(recording.id))
 
     @property
     def is_recording_sample_forced(self):
